@@ -51,7 +51,21 @@ def cases(seed, tier):
                 for child in exprs.CHILD_KINDS:
                     out.append({'seed': seed, 'i': k, 'mode': 'force', 'force': [parent, slot, child], 'rep': rep})
                     k += 1
+    # directed, the same at every run whatever the seed: the two shapes on which the external engine is known to deviate
+    out += [{'seed': 'directed', 'i': 2 * j, 'mode': 'directed', 'which': j} for j in range(len(DIRECTED))]
     return out
+
+
+_DATA = {'a': [1.0, -1.0, 2.0, 0.0, 3.0], 'x': [0.1, 0.25, 1.0, 20230101.0, 16777217.0], 'y': [0.5, 1.5, 2.5, 3.5, 4.5]}
+DIRECTED = [
+    {'ast': ['condsum', [[['share', 0], ['num', 10.0]], [['share', 0], ['num', 100.0]]]], 'shared': [['gt', ['var', 'a'], ['num', 0.0]]]},
+    {'ast': ['add', ['mul', ['beta', 'b'], ['var', 'y']],
+             ['condsum', [[['share', 0], ['var', 'y']], [['le', ['var', 'a'], ['num', 0.0]], ['num', 7.0]], [['share', 0], ['exp', ['beta', 'b']]]]]],
+     'shared': [['gt', ['var', 'a'], ['num', 0.0]]]},
+    {'ast': ['belongs', ['var', 'x'], [0.1]], 'shared': []},
+    {'ast': ['add', ['belongs', ['var', 'x'], [20230101, 5]], ['mul', ['num', 2.0], ['belongs', ['var', 'x'], [16777217]]]], 'shared': []},
+    {'ast': ['belongs', ['var', 'x'], [True, 0.25]], 'shared': []},
+]
 
 
 def warmup():
@@ -106,6 +120,90 @@ def _subst_row(node, data, row):
     return node
 
 
+def _walk(node, shared, fn, seen=None):
+    """apply fn to every list node of the tree (shared sub-trees once)"""
+    seen = set() if seen is None else seen
+    if not isinstance(node, list) or not node:
+        return
+    if node[0] == 'share':
+        if node[1] not in seen:
+            seen.add(node[1])
+            _walk(shared[node[1]], shared, fn, seen)
+        return
+    fn(node)
+    for x in node[1:]:
+        if isinstance(x, list):
+            _walk(x, shared, fn, seen)
+            for y in x:
+                if isinstance(y, list):
+                    _walk(y, shared, fn, seen)
+                    for z in y:
+                        if isinstance(z, list):
+                            _walk(z, shared, fn, seen)
+
+
+def _map(node, fn):
+    """rebuild a tree bottom-up, fn applied to every operator node"""
+    if not isinstance(node, list):
+        return node
+    out = [_map(x, fn) for x in node]
+    return fn(out) if out and isinstance(out[0], str) else out
+
+
+def _engine_defect_shapes(spec):
+    """Two shapes on which the EXTERNAL engine is known to deviate (known findings, classified structurally):
+    a ConditionalSum in which one condition object governs several terms (the engine keys the terms by the condition
+    object and keeps one), and BelongsTo members that single precision cannot represent (the engine parses the members
+    as float). Returns [(mechanism, alternative ast, alternative shared)] describing what the defect would compute."""
+    found = {'cond': False, 'f32': False}
+
+    def look(n):
+        if n[0] == 'condsum':
+            refs = [tuple(c) for c, _ in n[1] if isinstance(c, list) and c and c[0] == 'share']
+            if len(refs) != len(set(refs)):
+                found['cond'] = True
+        if n[0] == 'belongs' and any(float(np.float32(float(m))) != float(m) for m in n[2]):
+            found['f32'] = True
+
+    _walk(spec['ast'], spec['shared'], look)
+    for a in spec.get('extra_asts', []):
+        _walk(a, spec['shared'], look)
+
+    def last_term(n):
+        if n[0] == 'condsum':
+            keep = {}
+            for k, (c, t) in enumerate(n[1]):
+                keep[tuple(c) if c and c[0] == 'share' else ('#', k)] = [c, t]
+            return ['condsum', list(keep.values())]
+        return n
+
+    def first_term(n):
+        if n[0] == 'condsum':
+            keep = {}
+            for k, (c, t) in enumerate(n[1]):
+                keep.setdefault(tuple(c) if c and c[0] == 'share' else ('#', k), [c, t])
+            return ['condsum', list(keep.values())]
+        return n
+
+    def single(n):
+        if n[0] == 'belongs':
+            return ['belongs', n[1], [float(np.float32(float(m))) for m in n[2]]]
+        return n
+
+    alts = []
+    M_COND = 'conditional-sum-one-condition-object-for-several-terms-keeps-one-term'
+    M_F32 = 'belongs-to-set-member-read-in-single-precision'
+    if found['cond']:
+        for f in (last_term, first_term):
+            alts.append((M_COND, f))
+    if found['f32']:
+        alts.append((M_F32, single))
+    if found['cond'] and found['f32']:
+        for f in (last_term, first_term):
+            alts.append((M_COND, lambda n, f=f: single(f(n))))
+    return [(m, lambda ast, f=f: _map(ast, f)) for m, f in alts]
+
+
 def run_case(case):
     from ..gen import exprs, build
     from ..oracle import evalast, signature
@@ -115,8 +213,11 @@ def run_case(case):
     rec = Rec(case)
     if case['mode'] == 'force':
         spec = exprs.make_case(case['seed'], case['i'], force=case['force'], max_depth=3, extra=0)
+    elif case['mode'] == 'directed':
+        spec = dict(DIRECTED[case['which']], data=_DATA, betas={'b': [0.3, 0]}, extra_asts=[])
     else:
-        spec = exprs.make_case(case['seed'], case['i'], extra=random.Random(case['i']).choice([0, 0, 1, 2, 4]))
+        spec = exprs.make_case(case['seed'], case['i'], extra=random.Random(case['i']).choice([0, 0, 1, 2, 4]),
+                               wide=(case['i'] % 2 == 1))
     bv = {k: v[0] for k, v in spec['betas'].items()}
     j = evalast.judge(spec['ast'], spec['data'], bv, spec['shared'])
     if not j['ok']:
@@ -164,6 +265,27 @@ def run_case(case):
     rec.sample({'ast': spec['ast'], 'shared': spec['shared'], 'betas': spec['betas'],
                 'data': spec['data'], 'reference': ref, 'engine': va})
     va = np.asarray(va, dtype=float)
+    shapes = _engine_defect_shapes(spec)
+    if shapes:
+        rec.c('cases_with_shared_condition_or_single_precision_member')
+
+    def classify(ast, engine_value, reference, label):
+        """a mismatch on one of the two known engine-defect shapes is reported under that defect's mechanism"""
+        ev_ = np.asarray(engine_value, dtype=float)
+        for mech, tr in shapes:
+            try:
+                alt, _ = evalast.evaluate(tr(ast), spec['data'], bv, [tr(a) for a in spec['shared']])
+            except (evalast.OutOfDomain, KeyError):
+                continue
+            if ev_.shape == alt.shape and close(ev_, alt, rtol, atol):
+                viol(mech, f'{label}={ev_.tolist()} reference={np.asarray(reference).tolist()}; the engine value equals the formula with '
+                     f'{"one term kept per condition object" if "conditional" in mech else "the set members rounded to single precision"}: {alt.tolist()}',
+                     engine=ev_)
+                return True
+        return False
+
+    if shapes and (va.shape != ref.shape or not close(va, ref, rtol, atol)) and classify(spec['ast'], va, ref, 'get_value_c'):
+        return rec.out()
     if va.shape != ref.shape or not close(va, ref, rtol, atol):
         viol('engine-value-differs-from-reference', f'get_value_c={va.tolist()} reference={ref.tolist()} maxrel={maxrel(va, ref) if va.shape == ref.shape else "shape"}',
              engine=va)
@@ -283,6 +405,8 @@ def run_case(case):
                     o2 = exprs.ops_in(forms[nm], spec['shared'])
                     rt, at = _tol(o2)
                     if not close(sim[nm].to_numpy(), refs[nm], rt, at):
+                        if shapes and classify(forms[nm], sim[nm].to_numpy(), refs[nm], f'simulate[{nm}]'):
+                            continue
                         viol('side-by-side-value-differs', f'formula {nm}: simulate={sim[nm].tolist()} ref={refs[nm].tolist()}',
                              formulas=forms)
                 # history: one of the formulas evaluated directly (ids re-prepared and restored), then simulate again
